@@ -17,7 +17,8 @@ EXPLANATION = (
     "documented suffixes), the event id is the message id stamped at publish, and the consumer queues and messages are durable; (R4) "
     "deadlines are anchored in the context: start_execution sets StartTime/EnteredTime only when absent and change_state stamps EnteredTime "
     "before it publishes; (R5) both the termination gate and the join create the join state lazily before first use. Trusted: the broker "
-    "redelivers what was unacknowledged. Not decided: equality of outcome with and without the crash; reply/event races around restart.")
+    "redelivers what was unacknowledged. Not decided: equality of outcome with and without the crash; reply/event races around restart."
+    ' (R8) the absence of a store entry is tested by truthiness, never by comparing get()/get_cached_view() with None: RedisDictStore.__getitem__ (read from the source) returns a view for any key, so the arm that re-creates a lost execution record must not be dead code with Redis.')
 RULE_TEXT = "obligation = one (entry, rule) for path rules; one guarded site / definition for the others; non-trivial = distinct (rule, site)"
 
 
